@@ -21,6 +21,10 @@ def _nested(tier):
              ("join", ("chain", ("sel", X, K), D0), Z, None), ("sel", ("join", ("chain", X, D0), Z, None), K),
              ("chain", ("chain", X, D0), Y), ("join", ("chain", D0, D0), Z, None), ("dedup", ("join", ("chain", X, D0), Z, None)),
              ("join", ("chain", X, D0), ("leaf", "I"), None), ("join", ("sel", ("chain", X, D0), K), Z, ("plit", False))]
+    # the "is there any row" idiom: zero columns, at most one row, possibly none
+    EX = ("dedup", ("proj", ("sel", Y, K), ()))
+    progs += [("join", X, EX, None), ("join", EX, X, None), ("join", X, ("dedup", ("proj", Y, ())), None), ("dedup", ("proj", ("sel", X, K), ())),
+              ("chain", ("dedup", ("proj", ("sel", X, K), ())), ("proj", D0, ())), ("join", ("sel", X, K), EX, None)]
     G = ("gt", ("ref", "b"), ("lit", "$k1"))
     F, T = ("plit", False), ("plit", True)
     preds = [("or", G, F), ("or", G, ("not", T)), ("and", ("or", G, F), K), ("not", ("or", G, F)), ("or", F, G), ("and", K, ("or", F, F)),
@@ -43,7 +47,8 @@ def _nested(tier):
 
 def shapes(tier, seed):
     out = []
-    for sh in c06.shapes(tier, seed) + _nested(tier):
+    base = [sh for sh in c06.shapes(tier, seed) if not (sh.get("sqlcount") or sh.get("processor") or sh.get("kind") == "processed")]
+    for sh in base + _nested(tier):
         for ex in (False, True):
             for decl in ("loose", "zero") if not ex else ("loose",):
                 s = dict(sh)
@@ -95,12 +100,15 @@ def run_shape(shape, tier):
         # emptiness of the relation itself (its tree); tree-vs-program agreement is C02/C05's business
         cnt = relmodel.index_order(sem_tree(rel, env)).count()
         doomed = bool(d.is_doomed)
+        pcnt = relmodel.index_order(sem_seq(prog, env)).count()  # rows of the applied operation sequence
         obs = []
         if doomed:
             obs.append(("doomed => no rows", cnt == 0, {"messages": d.messages[:3]}))
+            obs.append(("doomed => the applied operation sequence has no rows", pcnt == 0, {"messages": d.messages[:3], "tree": str(rel)}))
             obs.append(("doomed => message", len(d.messages) > 0, {}))
         elif shape["executor"]:
             obs.append(("not doomed (with truthful executor) => has rows", cnt > 0, {"executor calls": calls[:4]}))
+            obs.append(("not doomed (with truthful executor) => the applied operation sequence has rows", pcnt > 0, {"tree": str(rel)}))
         else:
             obs.append(("not doomed", True, {}))
         return obs
@@ -155,8 +163,13 @@ def concrete_check(prog, eng, rows, bind, with_executor, decl):
     except Exception as e:  # noqa: BLE001
         return True, f"raises:{type(e).__name__}", str(e)[:150]
     cnt = len(pytree(rel, leafrows))
+    pcnt = len(pyeval(prog, leafrows, bind, env.tags))
     if d.is_doomed and cnt > 0:
         return True, "doomed-but-has-rows", {"messages": d.messages, "count": cnt}
+    if d.is_doomed and pcnt > 0:
+        return True, "doomed-but-sequence-has-rows", {"messages": d.messages, "count": pcnt, "tree": str(rel)}
+    if with_executor and not d.is_doomed and pcnt == 0 and cnt > 0:
+        return True, "sequence-empty-but-not-doomed", {"tree": str(rel)}
     if d.is_doomed and not d.messages:
         return True, "doomed-without-message", {}
     if with_executor and not d.is_doomed and cnt == 0:
